@@ -1070,6 +1070,77 @@ mod if_alloc {
             }
         }
 
+        /// A reference to the state of a shared channel which is not counted
+        /// as sender or receiver (verification hook)
+        #[cfg(futures_intrusive_verif)]
+        pub struct VerifSharedChannel<MutexType, T, A>
+        where
+            MutexType: RawMutex,
+            A: RingBuf<Item = T>,
+            T: 'static,
+        {
+            inner: alloc::sync::Arc<GenericChannelSharedState<MutexType, T, A>>,
+        }
+
+        #[cfg(futures_intrusive_verif)]
+        impl<MutexType, T, A> core::fmt::Debug
+            for VerifSharedChannel<MutexType, T, A>
+        where
+            MutexType: RawMutex,
+            A: RingBuf<Item = T>,
+        {
+            fn fmt(&self, f: &mut core::fmt::Formatter) -> core::fmt::Result {
+                f.debug_struct("VerifSharedChannel").finish()
+            }
+        }
+
+        #[cfg(futures_intrusive_verif)]
+        impl<MutexType, T, A> VerifSharedChannel<MutexType, T, A>
+        where
+            MutexType: RawMutex,
+            A: RingBuf<Item = T>,
+        {
+            /// As `GenericChannel::verif_snapshot`, with the additional
+            /// scalars `[.., senders, receivers]`
+            pub fn verif_snapshot(
+                &self,
+                tag_of: &dyn Fn(&T) -> u64,
+            ) -> crate::verif::Snapshot {
+                let mut snap = self.inner.channel.verif_snapshot(tag_of);
+                snap.scalars
+                    .push(self.inner.senders.load(Ordering::SeqCst) as u64);
+                snap.scalars
+                    .push(self.inner.receivers.load(Ordering::SeqCst) as u64);
+                snap
+            }
+        }
+
+        #[cfg(futures_intrusive_verif)]
+        impl<MutexType, T, A> GenericSender<MutexType, T, A>
+        where
+            MutexType: RawMutex,
+            A: RingBuf<Item = T>,
+        {
+            /// Returns an uncounted reference to the shared channel state
+            pub fn verif_shared(&self) -> VerifSharedChannel<MutexType, T, A> {
+                VerifSharedChannel {
+                    inner: self.inner.clone(),
+                }
+            }
+        }
+
+        #[cfg(futures_intrusive_verif)]
+        impl<MutexType, T, A> SharedStream<MutexType, T, A>
+        where
+            MutexType: RawMutex,
+            A: 'static + RingBuf<Item = T>,
+        {
+            /// Describes the wait node of the receive future inside the stream
+            pub fn verif_node(&self) -> Option<crate::verif::NodeSnap> {
+                self.future.as_ref().map(|f| f.verif_node())
+            }
+        }
+
         // Export parking_lot based shared channels in std mode
         #[cfg(feature = "std")]
         mod if_std {
@@ -1140,3 +1211,48 @@ mod if_alloc {
 
 #[cfg(feature = "alloc")]
 pub use self::if_alloc::*;
+
+#[cfg(all(futures_intrusive_verif, feature = "alloc"))]
+mod verif_hooks {
+    use super::*;
+    use crate::channel::channel_future::verif_hooks::{
+        describe_recv, describe_send,
+    };
+    use crate::verif::{snap_list, NodeSnap, Snapshot};
+
+    impl<MutexType: RawMutex, T, A> GenericChannel<MutexType, T, A>
+    where
+        A: RingBuf<Item = T>,
+    {
+        /// Scalars: `[is_closed, buffer.len(), buffer.capacity()]`,
+        /// buffer: tags of the buffered values (if the buffer type supports
+        /// inspection), queues: `[receive_waiters, send_waiters]`
+        pub fn verif_snapshot(&self, tag_of: &dyn Fn(&T) -> u64) -> Snapshot {
+            let state = self.inner.lock();
+            let mut snap = Snapshot::default();
+            snap.scalars.push(state.is_closed as u64);
+            snap.scalars.push(state.buffer.len() as u64);
+            snap.scalars.push(state.buffer.capacity() as u64);
+            let mut idx = 0;
+            while let Some(item) = state.buffer.verif_get(idx) {
+                snap.buffer.push(tag_of(item));
+                idx += 1;
+            }
+            snap_list(&state.receive_waiters, &mut snap, &describe_recv);
+            snap_list(&state.send_waiters, &mut snap, &|e| {
+                describe_send(e, tag_of)
+            });
+            snap
+        }
+    }
+
+    impl<'a, MutexType: RawMutex, T, A> ChannelStream<'a, MutexType, T, A>
+    where
+        A: RingBuf<Item = T>,
+    {
+        /// Describes the wait node of the receive future inside the stream
+        pub fn verif_node(&self) -> Option<NodeSnap> {
+            self.future.as_ref().map(|f| f.verif_node())
+        }
+    }
+}
